@@ -11,6 +11,7 @@ import Sourcer.Proofs.WalkProofs
 import Sourcer.Proofs.TransformProofs
 import Sourcer.Proofs.ModulesProofs
 import Sourcer.Syntax
+import Sourcer.Proofs.EnvProofs
 /-
   Property theorems (statements only; proofs are one-liners over Sourcer/Proofs/*).
   Every theorem is followed by an `example` showing its hypotheses are met by a concrete,
@@ -914,5 +915,143 @@ theorem C19_choice (a b : Syn) (x y : Expr) (ha : elabSyn a = some x) (hb : elab
 -- non-vacuity
 example : elabSyn (.infix (.str [97]) "/?" (.postfix (.ref 0) "+"))
     = some (.sep (.str [97] false) (.list (.ref 0) 1 none) ⟨true, true, true, false⟩) := by rfl
+
+/-! ## C05 – bound names see the values parsed earlier; C06 – templates behave like their expansion
+
+  `X.xpeg` gives names their documented, lexical meaning; `X.xgen` is what the generated Python
+  does (one flat dictionary of locals per function call, assignments that nothing undoes, argument
+  expressions moved into helper functions that receive the values of their sorted free names). -/
+
+open X in
+/-- **C05.**  On a well-scoped program in which no binder shadows a name in scope, wherever the
+    lexical specification is defined the generated code computes the same outcome - in every
+    later inline Python expression, `where` predicate, repetition count and argument a bound name
+    denotes the value produced for it in the current attempt - and the names in scope are left as
+    they were (`Agree`), whatever abandoned alternatives, repetitions and callees assigned. -/
+theorem C05_flat_locals_realise_lexical_scoping (P : XProgram) (inp : List Nat) (hP : wsProgram P = true)
+    (fuel : Nat) (e : XExpr) (Γ : List Name) (L : Locals) (ρ : SEnv) (p : Nat) (r : Res)
+    (hws : ws Γ e = true) (hag : Agree Γ L ρ) (h : xpeg P inp fuel e ρ p = some r) :
+    ∃ L', xgen P inp fuel e L p = some (r, L') ∧ Agree Γ L' ρ :=
+  xgen_sim P inp (wsProgram_iff P hP) fuel e Γ L ρ p r hws hag h
+
+open X in
+/-- the same for a whole parse: the outcome of a rule -/
+theorem C05_rule_outcome (P : XProgram) (inp : List Nat) (hP : wsProgram P = true) (fuel r p : Nat) (res : Res)
+    (h : xpeg P inp fuel (.ref r) [] p = some res) :
+    ∃ L', xgen P inp fuel (.ref r) [] p = some (res, L') := by
+  obtain ⟨L', h1, _⟩ := xgen_sim P inp (wsProgram_iff P hP) fuel (.ref r) [] [] [] p res (by simp [ws]) (agree_nil _ _) h
+  exact ⟨L', h1⟩
+
+open X in
+/-- what the specification says about `where`, `|>`, `<|` and class bodies (the clauses of C05):
+    `e where p` is `e`'s value iff `p(value)` is truthy; `e |> f` and `f <| e` are `f(value)` (the
+    operands are parsed in the order written); a class body yields an instance holding exactly the
+    kept fields, in declaration order, with the values bound to them -/
+theorem C05_where_apply_class (P : XProgram) (inp : List Nat) (fuel : Nat) (e f : XExpr) (ρ : SEnv)
+    (p p' p'' : Nat) (v fv : Val) :
+    (xpeg P inp fuel e ρ p = some (.ok v p') → xpeg P inp fuel f ρ p' = some (.ok fv p'') →
+      xpeg P inp (fuel + 1) (.where_ e f) ρ p = some (if P.truthy (P.app fv v) then .ok v p'' else .fail) ∧
+      xpeg P inp (fuel + 1) (.apply e f) ρ p = some (.ok (P.app fv v) p'')) ∧
+    (xpeg P inp fuel f ρ p = some (.ok fv p') → xpeg P inp fuel e ρ p' = some (.ok v p'') →
+      xpeg P inp (fuel + 1) (.applyL f e) ρ p = some (.ok (P.app fv v) p'')) ∧
+    (∀ ctor fields vs start q, valuesS ρ fields = some vs →
+      specItems (xpeg P inp fuel) ctor fields start [] ρ q = some (.ok (.obj ctor (fields.zip vs) (some (start, q))) q)) := by
+  refine ⟨?_, ?_, ?_⟩
+  · intro he hf
+    refine ⟨?_, ?_⟩
+    · simp only [xpeg, he, hf]
+      split <;> rfl
+    · simp [xpeg, he, hf]
+  · intro hf he
+    simp [xpeg, he, hf]
+  · intro ctor fields vs start q hv
+    simp [specItems, hv]
+
+namespace C05Example
+open X
+/-- ``let xa = "a" in [let xa = "b" in `xa`, `xa`]``: the inner binder shadows the outer one -/
+def shadow : XProgram :=
+  { rules := [.let_ "xa" (.lit [97]) (.seq [.let_ "xa" (.lit [98]) (.py ⟨0, ["xa"]⟩), .py ⟨0, ["xa"]⟩])],
+    templates := [], pyf := fun _ args => args.headD .none, app := fun _ v => v, truthy := fun _ => true }
+/-- ``let xa = "a" in [let xb = "b" in `xb`, `xa`]`` -/
+def noShadow : XProgram :=
+  { rules := [.let_ "xa" (.lit [97]) (.seq [.let_ "xb" (.lit [98]) (.py ⟨0, ["xb"]⟩), .py ⟨0, ["xa"]⟩])],
+    templates := [], pyf := fun _ args => args.headD .none, app := fun _ v => v, truthy := fun _ => true }
+end C05Example
+
+open X in
+/-- **C05, known finding.**  With shadowing the property fails, in the model exactly as in the
+    implementation: lexically the second `` `xa` `` is `'a'`, the generated code returns `'b'`
+    (replayed against the real generator by the check). -/
+theorem C05_shadowing_breaks_it :
+    wsProgram C05Example.shadow = false ∧
+    xpeg C05Example.shadow [97, 98] 8 (.ref 0) [] 0 = some (.ok (.list [.str [98], .str [97]]) 2) ∧
+    (xgen C05Example.shadow [97, 98] 8 (.ref 0) [] 0).map (·.1) = some (.ok (.list [.str [98], .str [98]]) 2) := by
+  refine ⟨by decide, by rfl, by rfl⟩
+
+-- non-vacuity: a well-scoped program on which the specification is defined
+open X in
+example : wsProgram C05Example.noShadow = true ∧
+    xpeg C05Example.noShadow [97, 98] 8 (.ref 0) [] 0 = some (.ok (.list [.str [98], .str [97]]) 2) := by
+  refine ⟨by decide, by rfl⟩
+
+open X in
+/-- **C06.**  A template call in generated code (helper functions for the argument expressions,
+    `_ParseFunction` with the captured values, a fresh frame that holds the parameters) has the
+    outcome of the template's body evaluated with each parameter denoting its argument - a parsing
+    expression together with the environment of the call site, parsed where and when the body uses
+    the parameter; a value computed at the call site; a string literal that is both - and it leaves
+    the caller's locals exactly as they were: instantiations cannot influence each other. -/
+theorem C06_call_is_body_with_arguments (P : XProgram) (inp : List Nat) (hP : wsProgram P = true)
+    (fuel : Nat) (t : Nat) (T : Template) (args : List (Option Name × XExpr)) (bound : List (Name × XExpr))
+    (Γ : List Name) (L : Locals) (ρ ρ' : SEnv) (p : Nat) (r : Res)
+    (hT : P.templates[t]? = some T) (hb : bindArgs T.params args = some bound) (hs : argsS P ρ bound = some ρ')
+    (hws : ws Γ (.call t args) = true) (hag : Agree Γ L ρ)
+    (h : xpeg P inp fuel T.body ρ' p = some r) :
+    xgen P inp (fuel + 1) (.call t args) L p = some (r, L) := by
+  have hspec : xpeg P inp (fuel + 1) (.call t args) ρ p = some r := by simp [xpeg, hT, hb, hs, h]
+  obtain ⟨L', h1, _⟩ := xgen_sim P inp (wsProgram_iff P hP) (fuel + 1) (.call t args) Γ L ρ p r hws hag hspec
+  have : L' = L := by
+    simp only [xgen, hT, hb] at h1
+    cases ha : argsI P L bound with
+    | none => simp [ha] at h1
+    | some Lc =>
+      simp only [ha] at h1
+      cases hr : xgen P inp fuel T.body Lc p with
+      | none => simp [hr] at h1
+      | some rl =>
+        simp [hr] at h1
+        exact h1.2.symm
+  rw [this] at h1
+  exact h1
+
+open X in
+/-- keyword arguments bind by name, positional ones in order: the frame of the callee holds
+    exactly the parameters, in declaration order, each bound to one of the call's arguments -/
+theorem C06_arguments_bind_parameters {α : Type} (params : List Name) (args : List (Option Name × α))
+    (bound : List (Name × α)) (h : bindArgs params args = some bound) :
+    bound.map (·.1) = params ∧ ∀ xa, xa ∈ bound → ∃ k, (k, xa.2) ∈ args :=
+  ⟨bindArgs_keys params args bound h, bindArgs_mem params args bound h⟩
+
+namespace C06Example
+open X
+/-- `start = let xa = /[a-c]/ in T0(pa = (/[a-c]/ where `lambda v: v != xa`))`, `T0(pa) = [pa, pa?]` -/
+def prog : XProgram :=
+  { rules := [.let_ "xa" (.cc 97 99) (.call 0 [(some "pa", .where_ (.cc 97 99) (.py ⟨0, ["xa"]⟩))])],
+    templates := [{ params := ["pa"], body := .seq [.pvar "pa", .opt (.pvar "pa")] }],
+    -- `lambda v: v != xa` as a value: the captured `xa`; calling it compares
+    pyf := fun _ args => args.headD .none,
+    app := fun f v => match f, v with
+      | .str a, .str b => .bool (a != b)
+      | _, _ => .none,
+    truthy := fun v => match v with | .bool b => b | _ => false }
+end C06Example
+
+-- non-vacuity: the argument mentions a name bound at the call site and is parsed twice by the body
+open X in
+example : wsProgram C06Example.prog = true ∧
+    xpeg C06Example.prog [97, 98, 97] 12 (.ref 0) [] 0 = some (.ok (.list [.str [98], .none]) 2) ∧
+    (xgen C06Example.prog [97, 98, 97] 12 (.ref 0) [] 0).map (·.1) = some (.ok (.list [.str [98], .none]) 2) := by
+  refine ⟨by decide, by rfl, by rfl⟩
 
 end Sourcer
